@@ -94,6 +94,11 @@ func (r *Run) now(th *thread) timeVal {
 	}
 	r.inputs = append(r.inputs, inputRec{Fn: "Clock", Name: fmt.Sprintf("clock%d", r.nowCount), Terms: []*Term{t}, W: 64})
 	r.addPC(st.And(st.BvCmp(OBvSle, lo, t), st.BvCmp(OBvSle, t, BV(64, 4_000_000_000*nsPerSec))))
+	if r.cfg.Params["timersNeverFire"] == 1 && r.clock != nil {
+		// harness assumption "no timer elapses during the scenario": consecutive clock readings are
+		// at most 1 ms apart, so no deadline computed from a reading is passed by a later reading
+		r.addPC(st.BvCmp(OBvSle, t, st.BvBin(OBvAdd, lo, BV(64, 1_000_000))))
+	}
 	r.clock = t
 	return timeVal{ns: t}
 }
